@@ -126,6 +126,9 @@ func (cache *HevcCache) getPalyloadType(payload []byte) (vps, sps, pps, islice b
 		// 循环读取被封装的NAL
 		for {
 			// nal长度
+			if off+2 >= len(payload) { // 畸形的聚合包：长度域或 NAL 头不完整
+				return
+			}
 			nalSize := ((uint16(payload[off])) << 8) | uint16(payload[off+1])
 			if nalSize < 1 {
 				return
